@@ -198,8 +198,10 @@ def build_obligation(inst):
                         return ops_eval(prog, kw, leaves, {} if mode == "trace_shared" else None)
                     if mode == "trace_extra":      # an input the function does not use (listed last)
                         dat["zz_unused"] = mk.array("in_zz", (2,), "real")
+                    # trace on one set of arrays, run on ANOTHER: values captured at trace time must not be baked in
+                    dat_tr = OrderedDict((k, (mk.array("tr_" + k, tuple(np.shape(v)), "real") if k not in bints else v)) for k, v in dat.items())
                     try:
-                        program = trace_function(fn, dict(dat), allow_constants=True)
+                        program = trace_function(fn, dict(dat_tr), allow_constants=True)
                     except (KeyError, ValueError, AssertionError) as e:
                         raise Decline("tracer rejects the function: %s: %s" % (type(e).__name__, str(e)[:60]))
                     got = program(**dat)
@@ -209,6 +211,42 @@ def build_obligation(inst):
             pairs.append((got, exp))
         return pairs
     return ob
+
+
+TRACE_FNS = {
+    "stack0": (("x", "y"), lambda ops, x, y: ops.stack((x, y), 0)),
+    "stack_last": (("x", "y"), lambda ops, x, y: ops.stack((x, ops.exp(y)), -1)),
+    "stack3_add": (("x", "y"), lambda ops, x, y: ops.add(ops.stack((x, y, x), 0), 1.0)),
+    "cat": (("x", "y"), lambda ops, x, y: ops.cat((x, ops.neg(y)), 0)),
+    "einsum": (("m", "w"), lambda ops, m, w: ops.einsum((m, w), "ab,bc->ac")),
+}
+
+
+def tracefn_worker(inst):
+    """hand-written functions of FINITARY ops (their operand is a tuple of arrays built inside the function), traced on
+    one set of arrays and run on another; both trace_function defaults and allow_constants=True"""
+    from harness.oblig import decide, Decline
+    _, name, allow = inst
+    argnames, f = TRACE_FNS[name]
+
+    def ob(mk):
+        import numpy as np
+        import funsor.ops as ops
+        from funsor.ops.tracer import trace_function
+        from symx.symarray import as_obj
+        run = OrderedDict((k, mk.array("in_" + k, tuple(VARS[k][1]), "real")) for k in argnames)
+        tr = OrderedDict((k, mk.array("tr_" + k, tuple(VARS[k][1]), "real")) for k in argnames)
+        try:
+            program = trace_function(lambda **kw: f(ops, **kw), dict(tr), allow_constants=allow)
+        except (KeyError, ValueError, AssertionError) as e:
+            raise Decline("tracer rejects the function: %s: %s" % (type(e).__name__, str(e)[:60]))
+        got = program(**run)
+        exp = f(ops, **run)
+        return [(got, exp)]
+    out = decide("tracefn|%s|allow_constants=%s" % (name, allow), ob, timeout_ms=8000, twin=False)
+    out["prog"] = out["label"]
+    out["programs"] = 1
+    return out
 
 
 def worker(inst):
@@ -296,6 +334,7 @@ def main():
     chk = Check("C18", "translation_validation")
     insts = instances(chk.tier, chk.seed)
     chk.map("checks.c18", "worker", insts, chunksize=4)
+    chk.map("checks.c18", "tracefn_worker", [("tracefn", n, a) for n in TRACE_FNS for a in (False, True)], chunksize=1, family="tracefn")
     chk.extra_cov = dict(programs=len({o.get("prog") for o in chk.outcomes if o["status"] == "ok"}), disagreements_checked=sum(o.get("cells", 0) for o in chk.outcomes))
     chk.bounds = dict(inputs={k: str(v) for k, v in VARS.items()}, depth="<= 3 | 4 (+ up to 2 extra steps)", constants="numbers and (for compile/trace) tensor constants",
                       routes=["compile_funsor(e)(**data) for e built under lazy and under normalize (flat Contractions of arity 2-9|18)", "exec(program.as_code())", "pickle round trip", "trace_function(f, data)", "missing / unexpected kwargs rejected"])
